@@ -677,9 +677,12 @@ _PAIRED_CACHE = {}
 
 def _paired_params(callee):
     """[(i, j)] positions of parameters that the function zips together."""
+    # per repository object: the same function key means different code in
+    # another (scratch) tree analysed by the same process
+    cache = callee.module.repo.__dict__.setdefault("_paired_cache", {})
     key = callee.key
-    if key in _PAIRED_CACHE:
-        return _PAIRED_CACHE[key]
+    if key in cache:
+        return cache[key]
     params = callee.params
     out = set()
     for n in walk_local(callee.node):
@@ -689,8 +692,8 @@ def _paired_params(callee):
             for a in range(len(idx)):
                 for b in range(a + 1, len(idx)):
                     out.add((idx[a], idx[b]))
-    _PAIRED_CACHE[key] = sorted(out)
-    return _PAIRED_CACHE[key]
+    cache[key] = sorted(out)
+    return cache[key]
 
 
 def check_modules(repo, col, shorts, rule="E-AXIS"):
